@@ -18,7 +18,10 @@
 (*   date..   [t |-> "date"|"dt"|"time", f, lex]  f = field tuple; all     *)
 (*            values WITHOUT timezone (one implicit timezone: the order is *)
 (*            the lexicographic order of the fields)                       *)
-(*   duration [t |-> "ymd"|"dtd"|"dur", mo, se, lex]  months, seconds      *)
+(*   duration [t |-> "ymd"|"dtd"|"dur", mo, se, lex]  months, se = <<whole *)
+(*            seconds, microseconds>> (the finest resolution of the        *)
+(*            lexical space the library keeps); date/time field tuples end *)
+(*            with a microseconds component as well                        *)
 (*   binary   [t |-> "hex"|"b64", o, lex]    o = sequence of octets        *)
 (*   node     [t |-> "node", s]   an untyped element node, string value s  *)
 (* `lex` is the canonical lexical form (code points) -- data of the        *)
@@ -45,7 +48,7 @@ QN(ns, p, l) == [t |-> "qn", ns |-> ns, p |-> p, l |-> l,
 Date(f, lex) == [t |-> "date", f |-> f, lex |-> lex]
 DT(f, lex)   == [t |-> "dt", f |-> f, lex |-> lex]
 Time(f, lex) == [t |-> "time", f |-> f, lex |-> lex]
-YMD(mo, lex)     == [t |-> "ymd", mo |-> mo, se |-> 0, lex |-> lex]
+YMD(mo, lex)     == [t |-> "ymd", mo |-> mo, se |-> <<0, 0>>, lex |-> lex]
 DTD(se, lex)     == [t |-> "dtd", mo |-> 0, se |-> se, lex |-> lex]
 Dur(mo, se, lex) == [t |-> "dur", mo |-> mo, se |-> se, lex |-> lex]
 Hex(o, lex) == [t |-> "hex", o |-> o, lex |-> lex]
@@ -83,6 +86,12 @@ S_PT0S    == <<80, 84, 48, 83>>                  \* "PT0S"
 S_P1D     == <<80, 49, 68>>                      \* "P1D"
 S_P1DT12H == <<80, 49, 68, 84, 49, 50, 72>>      \* "P1DT12H"
 S_P1M1D   == <<80, 49, 77, 49, 68>>              \* "P1M1D"
+S_PT400us == <<80, 84, 48, 46, 48, 48, 48, 52, 83>>   \* "PT0.0004S"
+S_PT700us == <<80, 84, 48, 46, 48, 48, 48, 55, 83>>   \* "PT0.0007S"
+S_dt1a    == <<50, 48, 48, 48, 45, 48, 49, 45, 48, 49, 84, 48, 48, 58, 48, 48, 58, 48, 48, 46, 48, 48, 48, 52>>   \* "2000-01-01T00:00:00.0004"
+S_dt1b    == <<50, 48, 48, 48, 45, 48, 49, 45, 48, 49, 84, 48, 48, 58, 48, 48, 58, 48, 48, 46, 48, 48, 48, 55>>   \* "2000-01-01T00:00:00.0007"
+S_time1a  == <<48, 48, 58, 48, 48, 58, 48, 48, 46, 48, 48, 48, 52>>   \* "00:00:00.0004"
+S_time1b  == <<48, 48, 58, 48, 48, 58, 48, 48, 46, 48, 48, 48, 55>>   \* "00:00:00.0007"
 S_0A      == <<48, 65>>                          \* "0A"
 S_0B      == <<48, 66>>                          \* "0B"
 S_0A0B    == <<48, 65, 48, 66>>                  \* "0A0B"
@@ -115,14 +124,18 @@ Bools    == {Bool(TRUE), Bool(FALSE)}
 QNa   == QN(<<>>, <<>>, S_a)      QNb == QN(<<>>, <<>>, S_b)     QNxa == QN(S_xsns, S_xs, S_a)
 QNabc == QN(<<>>, <<>>, S_abc)    \* only a cast result, not an operand
 Date1 == Date(<<2000, 1, 1>>, S_date1)                 Date2 == Date(<<2000, 1, 2>>, S_date2)
-DT1   == DT(<<2000, 1, 1, 0, 0, 0>>, S_dt1)            DT2   == DT(<<2000, 1, 1, 12, 0, 0>>, S_dt2)
-Time1 == Time(<<0, 0, 0>>, S_time1)                    Time2 == Time(<<12, 0, 0>>, S_time2)
+DT1   == DT(<<2000, 1, 1, 0, 0, 0, 0>>, S_dt1)         DT2   == DT(<<2000, 1, 1, 12, 0, 0, 0>>, S_dt2)
+DT1a  == DT(<<2000, 1, 1, 0, 0, 0, 400>>, S_dt1a)      DT1b  == DT(<<2000, 1, 1, 0, 0, 0, 700>>, S_dt1b)   \* differ below 1 ms
+Time1 == Time(<<0, 0, 0, 0>>, S_time1)                 Time2 == Time(<<12, 0, 0, 0>>, S_time2)
+Time1a == Time(<<0, 0, 0, 400>>, S_time1a)             Time1b == Time(<<0, 0, 0, 700>>, S_time1b)
 Y1M == YMD(1, S_P1M)   Y1Y == YMD(12, S_P1Y)   YN1M == YMD(-1, S_mP1M)   Y0 == YMD(0, S_P0M)
-T0  == DTD(0, S_PT0S)  T1D == DTD(86400, S_P1D)   T36H == DTD(129600, S_P1DT12H)
-U1M == Dur(1, 0, S_P1M)   U1M1D == Dur(1, 86400, S_P1M1D)
+T0  == DTD(<<0, 0>>, S_PT0S)  T1D == DTD(<<86400, 0>>, S_P1D)   T36H == DTD(<<129600, 0>>, S_P1DT12H)
+T400us == DTD(<<0, 400>>, S_PT400us)   T700us == DTD(<<0, 700>>, S_PT700us)     \* PT0.0004S, PT0.0007S: equal up to the millisecond
+U1M == Dur(1, <<0, 0>>, S_P1M)   U1M1D == Dur(1, <<86400, 0>>, S_P1M1D)
 H0A == Hex(<<10>>, S_0A)   H0B == Hex(<<11>>, S_0B)   H0A0B == Hex(<<10, 11>>, S_0A0B)
 X0A == B64(<<10>>, S_Cg)   X0B == B64(<<11>>, S_Cw)
-Others == {QNa, QNb, QNxa, Date1, Date2, DT1, DT2, Time1, Time2, Y1M, Y1Y, YN1M, Y0, T0, T1D, T36H,
+Others == {QNa, QNb, QNxa, Date1, Date2, DT1, DT2, DT1a, DT1b, Time1, Time2, Time1a, Time1b, Y1M, Y1Y, YN1M, Y0, T0, T1D, T36H,
+           T400us, T700us,
            U1M, U1M1D, H0A, H0B, H0A0B, X0A, X0B}
 Atoms  == Numerics \cup Strings \cup Untypeds \cup Uris \cup Bools \cup Others
 N1   == Node(S_1)     Nabc == Node(S_abc)
